@@ -83,6 +83,7 @@ thread_local! {
 }
 
 pub struct Stats {
+    pub client_crashes: u64,
     pub weak_checks: u64,
     pub clock_jumps: u64,
     pub jumped_s: u64,
@@ -94,7 +95,7 @@ pub struct Stats {
 }
 
 pub fn execute(h: &History, refs: &mut HashMap<(u16, u16, u8), Observed>) -> Result<Stats, Fail> {
-    let mut st = Stats { weak_checks: 0, clock_jumps: 0, jumped_s: 0, requests: 0, max_cached: 0, hits: 0, evictions: 0, alias_pairs: 0 };
+    let mut st = Stats { client_crashes: 0, weak_checks: 0, clock_jumps: 0, jumped_s: 0, requests: 0, max_cached: 0, hits: 0, evictions: 0, alias_pairs: 0 };
     let mut prev: Option<Req> = None;
     for (at, r) in h.reqs.iter().enumerate() {
         if r.jump_s > 0 {
@@ -109,6 +110,17 @@ pub fn execute(h: &History, refs: &mut HashMap<(u16, u16, u8), Observed>) -> Res
             continue;
         }
         if r.k == 0 || r.t == 0 {
+            continue;
+        }
+        if r.k as u32 > 56403 {
+            // client crash: a request for more symbols than supported makes the library panic inside
+            // the request; the caller survives it. Whatever the cache did with its lock at that
+            // moment (real std Mutex: poisoned if it was held), every later request must still work.
+            let cfg = ObjectTransmissionInformation::new(0, 1, 0, 1, 1);
+            let data = vec![0u8; r.k as usize];
+            let _ = guarded(|| SourceBlockEncoder::new(0, &cfg, &data));
+            st.client_crashes += 1;
+            check_snapshot(at)?;
             continue;
         }
         let cfg = ObjectTransmissionInformation::new(0, r.t, 0, 1, 1);
@@ -194,6 +206,10 @@ pub fn generate(seed: u64) -> History {
     // a third of the histories contain idle periods (simulated clock jumps)
     let jumps = r.chance(1, 3);
     while reqs.len() < n {
+        if r.chance(1, 60) {
+            // a rejected (oversized) request
+            reqs.push(Req { k: 56404 + 1000 * r.below(9) as u16, t: 1, data_seed: 0, jump_s: 0 });
+        }
         if jumps && r.chance(1, 30) {
             let s = *r.pick(&[1u32, 30, 59, 60, 61, 120, 600, 3600, 86_400, 2_592_000]);
             reqs.push(Req { k: 0, t: 0, data_seed: 0, jump_s: s });
@@ -272,7 +288,7 @@ pub fn run(ctx: &Ctx) -> i32 {
         eprintln!("HARNESS-ERROR: the clock interposer does not move std::time::Instant");
         return 2;
     }
-    let mut total = Stats { weak_checks: 0, clock_jumps: 0, jumped_s: 7, requests: 0, max_cached: 0, hits: 0, evictions: 0, alias_pairs: 0 };
+    let mut total = Stats { client_crashes: 0, weak_checks: 0, clock_jumps: 0, jumped_s: 7, requests: 0, max_cached: 0, hits: 0, evictions: 0, alias_pairs: 0 };
     let mut violations = vec![];
     let mut runs = 0u64;
     let mut sample = None;
@@ -297,6 +313,7 @@ pub fn run(ctx: &Ctx) -> i32 {
                 total.requests += st.requests;
                 total.clock_jumps += st.clock_jumps;
                 total.weak_checks += st.weak_checks;
+                total.client_crashes += st.client_crashes;
                 total.jumped_s += st.jumped_s;
                 total.max_cached = total.max_cached.max(st.max_cached);
                 total.hits += st.hits;
@@ -355,7 +372,7 @@ pub fn run(ctx: &Ctx) -> i32 {
         "flavour": "sequential (no shuttle: std Mutex/OnceLock, shipped capacity, real thread-local storage, one OS thread)",
         "capacity": verif_plan_cache::CAPACITY,
         "histories": runs, "requests": total.requests, "cache_hits": total.hits, "evictions_observed": total.evictions,
-        "max_plans_cached": total.max_cached, "hidden_retention_checks": total.weak_checks, "clock_jumps_injected": total.clock_jumps, "simulated_idle_seconds": total.jumped_s,
+        "max_plans_cached": total.max_cached, "client_crashes_injected": total.client_crashes, "hidden_retention_checks": total.weak_checks, "clock_jumps_injected": total.clock_jumps, "simulated_idle_seconds": total.jumped_s,
         "clock_seam": "LD_PRELOAD interposer on clock_gettime/gettimeofday/time with a simulator-owned offset (sim/src/clockshim.c)", "back_to_back_requests_with_block_lengths_equal_mod_65536": total.alias_pairs,
         "wall_s": wall, "violations": violations.len(), "sample_history": sample, "tier": ctx.tier(), "seed": ctx.seed,
     });
